@@ -149,6 +149,42 @@ def c19_extra(ROOT, tier, seed, sh, WORK):
     return out
 
 
+def c14_extra(ROOT, tier, seed, sh, WORK):
+    """Pointer-carrying components under GC: finalizer audit over seeded histories
+    (gc_harness/), plain, with GOGC=1, and with a goroutine forcing collections."""
+    import os, re, subprocess
+    out = {'violations': []}
+    sh("cd gc_harness && cp /repo/go.sum . 2>/dev/null; go build -o gc_harness .", timeout=900)
+    n = 30 if tier == 'quick' else 400
+    G = os.path.join(ROOT, 'gc_harness', 'gc_harness')
+    runs = [('plain', {}, []), ('GOGC=1', {'GOGC': '1'}, []), ('gcgoroutine', {}, ['-gcgoroutine'])]
+    tot = {'histories': 0, 'ops': 0, 'live_checks': 0, 'released_checks': 0}
+    for name, env, flags in runs:
+        p = subprocess.run([G, '-seed', str(seed % 100000), '-n', str(n)] + flags, capture_output=True, text=True,
+                           env=dict(os.environ, **env), timeout=3000)
+        m = re.search(r'SUMMARY histories=(\d+) ops=(\d+) live_checks=(\d+) released_checks=(\d+) fails=(\d+)', p.stdout)
+        if not m:
+            rp = os.path.join(ROOT, 'replays', f'C14-{name}.txt')
+            open(rp, 'w').write(p.stdout[-3000:] + p.stderr[-3000:])
+            out['violations'].append({'replay': rp, 'cmd': 'gc', 'classes': ['gc'], 'chk': f'{name}: harness produced no summary'})
+            continue
+        for k, v in zip(tot, m.groups()):
+            tot[k] += int(v)
+        kinds = {}
+        for l in p.stdout.splitlines():
+            mm = re.match(r'FAIL history=\S+ op=\S+ ([a-z ]+):', l)
+            if mm:
+                kinds.setdefault(mm.group(1), []).append(l)
+        for kind, lines in kinds.items():
+            if kind == 'suppressed':
+                continue
+            rp = os.path.join(ROOT, 'replays', f"C14-{name}-{kind.replace(' ', '_')}.txt")
+            open(rp, 'w').write(f"# gc_harness -seed {seed % 100000} -n {n} {' '.join(flags)} (env {env})\n" + "\n".join(lines[:40]) + "\n")
+            out['violations'].append({'replay': rp, 'cmd': 'gc', 'classes': ['gc'], 'chk': f'{name}: {kind}'})
+    out.update({'gc_' + k: v for k, v in tot.items()})
+    return out
+
+
 PROPS = {
     'C01': {
         'budget': _merge(_p('core', 220, 4000), _p('mixed', 80, 2000)),
@@ -254,6 +290,13 @@ PROPS = {
         'extra': c13_extra,
         'level': 'proof',
         'rule': "histories (profiles mixed, rel, cache, batch) replayed raw (real handles, iteration order, event order) in a second process with GOGC=1 and a goroutine forcing GC, and twice in one process: outputs compared byte for byte, implementation against implementation",
+    },
+    'C14': {
+        'budget': _merge(_p('core', 60, 600)),
+        'projection': [(r'view_vals', None)],
+        'own_ops': {'XCHG', 'RM', 'SET'},
+        'extra': c14_extra,
+        'rule': "gc_harness: seeded histories over 8 component types holding pointers/slices/maps/strings whose referents are reachable only through the component; finalizers audit that live referents are never collected and removed ones are released; three collector regimes (between bursts, GOGC=1, concurrent goroutine)",
     },
     'C15': {
         'budget': _merge(_p('reset', 220, 4000), _p('cache', 40, 500)),
